@@ -34,29 +34,70 @@ def make_ext(code, content):
         return Nifti1Extension(code, content)
 
 
-def dicom_bytes(rng):
+def dicom_obj(spec):
     import pydicom as pdcm
-    from nibabel.nifti1 import Nifti1DicomExtension
     ds = pdcm.Dataset()
-    ds.PatientID = 'P%d' % rng.randrange(10 ** rng.randrange(1, 6))
-    if rng.random() < 0.5:
-        ds.PatientName = 'N' * rng.randrange(1, 20)
-    e = Nifti1DicomExtension(2, ds)
-    return bytes(e._mangle(ds))
+    ds.PatientID = spec[0]
+    if spec[1]:
+        ds.PatientName = spec[1]
+    return ds
 
 
-def cifti_bytes(rng):
+def dicom_spec(rng):
+    return ('P%d' % rng.randrange(10 ** rng.randrange(1, 6)), 'N' * rng.randrange(1, 20) if rng.random() < 0.5 else '')
+
+
+def dicom_bytes_of(spec):
+    from nibabel.nifti1 import Nifti1DicomExtension
+    ds = dicom_obj(spec)
+    return bytes(Nifti1DicomExtension(2, ds)._mangle(ds))
+
+
+def cifti_obj(spec):
     from nibabel.cifti2 import Cifti2Header, cifti2_axes as ax
-    names = ['s%d' % i for i in range(rng.randrange(1, 4))]
-    h = Cifti2Header.from_axes((ax.ScalarAxis(names), ax.SeriesAxis(0, 1, rng.randrange(1, 5))))
-    return h.to_xml()
+    names = ['s%d' % i for i in range(spec[0])]
+    return Cifti2Header.from_axes((ax.ScalarAxis(names), ax.SeriesAxis(0, 1, spec[1])))
+
+
+def cifti_spec(rng):
+    return (rng.randrange(1, 6), rng.randrange(1, 5))
+
+
+def cifti_bytes_of(spec):
+    return cifti_obj(spec).to_xml()
+
+
+def make_ext_obj(code, spec, mode, spec0=None):
+    """extension backed by a runtime OBJECT (mode 'object'), or built from the bytes of spec0 and
+    then edited in place through get_content() into spec (mode 'edited'); `.content` is never read
+    here, so that a stale serialisation cache is not refreshed by the harness itself."""
+    from nibabel.nifti1 import Nifti1DicomExtension
+    from nibabel.cifti2.parse_cifti2 import Cifti2Extension
+    if code == 2:
+        if mode == 'object':
+            return Nifti1DicomExtension(2, dicom_obj(spec))
+        e = Nifti1DicomExtension(2, dicom_bytes_of(spec0))
+        ds = e.get_content()
+        ds.PatientID = spec[0]
+        if spec[1]:
+            ds.PatientName = spec[1]
+        elif 'PatientName' in ds:
+            del ds.PatientName
+        return e
+    if mode == 'object':
+        return Cifti2Extension.from_object(cifti_obj(spec))
+    e = Cifti2Extension(32, cifti_bytes_of(spec0))
+    hdr = e.get_content()
+    new = cifti_obj(spec)
+    hdr.matrix = new.matrix
+    return e
 
 
 def gen_content(rng, code, n):
     if code == 2:
-        return dicom_bytes(rng)
+        return dicom_bytes_of(dicom_spec(rng))
     if code == 32:
-        return cifti_bytes(rng)
+        return cifti_bytes_of(cifti_spec(rng))
     kind = rng.random()
     if kind < 0.25:
         body = bytes(rng.randrange(1, 256) for _ in range(n))
@@ -84,9 +125,18 @@ def gen_cases(chk):
     for _ in range(nrand):
         k = rng.choice([0, 1, 1, 2, 2, 3, 4, 6])
         exts = []
-        for _ in range(k):
+        objs = {}
+        for j in range(k):
             code = rng.choice(CODES)
-            exts.append((code, gen_content(rng, code, rng.randrange(0, 71))))
+            if code in (2, 32) and rng.random() < 0.6:
+                mk = dicom_spec if code == 2 else cifti_spec
+                by = dicom_bytes_of if code == 2 else cifti_bytes_of
+                spec, spec0 = mk(rng), mk(rng)
+                mode = rng.choice(['object', 'edited'])
+                objs[j] = (spec, mode, spec0)
+                exts.append((code, by(spec)))
+            else:
+                exts.append((code, gen_content(rng, code, rng.randrange(0, 71))))
         cls = rng.choice([1, 2])
         single = rng.random() < 0.7
         be = rng.random() < 0.5
@@ -101,7 +151,7 @@ def gen_cases(chk):
             vox = max(1, minv - rng.choice([1, 4, 8, 16, 17]))   # too small
         else:
             vox = minv + rng.choice([16, 24, 32, 160])     # >= 16 bytes slack (S-C11a when exts)
-        cases.append(dict(exts=exts, be=be, cls=cls, single=single, vox=vox))
+        cases.append(dict(exts=exts, be=be, cls=cls, single=single, vox=vox, objs=objs))
     return cases
 
 
@@ -119,9 +169,14 @@ def impl_run(case):
     hdr.set_data_dtype(np.uint8)
     img = cls(data, np.eye(4), header=hdr)
     assert img.header.endianness == endian
-    for code, content in case['exts']:
-        img.header.extensions.append(make_ext(code, content))
-    out = {'sizes': [int(e.get_sizeondisk()) for e in img.header.extensions]}
+    objs = case.get('objs') or {}
+    for j, (code, content) in enumerate(case['exts']):
+        if j in objs or str(j) in objs:
+            spec, mode, spec0 = objs.get(j) or objs.get(str(j))
+            img.header.extensions.append(make_ext_obj(code, tuple(spec), mode, tuple(spec0)))
+        else:
+            img.header.extensions.append(make_ext(code, content))
+    out = {}
     if case['vox']:
         img.header.set_data_offset(case['vox'])
     fm = {'image': FileHolder(fileobj=io.BytesIO()), 'header': FileHolder(fileobj=io.BytesIO())}
@@ -133,10 +188,12 @@ def impl_run(case):
             img.to_file_map(fm)
     except HeaderDataError as e:
         out['write'] = 'err offset_too_small'
+        out['sizes'] = [int(e.get_sizeondisk()) for e in img.header.extensions]
         return out
     hb = fm['header'].fileobj.getvalue()
     ib = fm['image'].fileobj.getvalue()
     out['write'] = 'ok'
+    out['sizes'] = [int(e.get_sizeondisk()) for e in img.header.extensions]
     out['hdr_tail'] = hb[hsize:]
     out['data_bytes'] = data.tobytes(order='F')
     out['img_bytes'] = ib
@@ -190,6 +247,8 @@ def run(chk: Check):
                   sample={'exts': [(cd, b.hex()) for cd, b in c['exts']], 'be': c['be'], 'cls': c['cls'],
                           'single': c['single'], 'vox': c['vox']} if i in (3, 80, 200) else None)
         chk.tagc('single' if c['single'] else 'pair')
+        for _sp, _mode, _s0 in (c.get('objs') or {}).values():
+            chk.tagc('ext_backed_by:' + _mode)
         chk.tagc('vox:' + ('auto' if c['vox'] == 0 else 'too_small' if c['vox'] < minv else
                            'slack<16' if c['vox'] < minv + 16 else 'slack>=16'))
         for j, (cd, b) in enumerate(c['exts']):
@@ -228,7 +287,7 @@ def run(chk: Check):
         hsize = 348 if c['cls'] == 1 else 540
         minv = hsize + 4 + sum((len(b) + 23) // 16 * 16 for _, b in c['exts'])
         case_desc = {'exts': [(cd, b.hex()) for cd, b in c['exts']], 'be': c['be'], 'cls': c['cls'],
-                     'single': c['single'], 'vox': c['vox']}
+                     'single': c['single'], 'vox': c['vox'], 'objs': {str(k): v for k, v in (c.get('objs') or {}).items()}}
         dis = []
         # sizes
         for j, sz in enumerate(o['sizes']):
@@ -335,7 +394,8 @@ def replay(chk, obj):
             return 1 if r else 0
         print('nothing to replay:', obj.get('predicate'))
         return 1
-    case = dict(exts=[(cd, bytes.fromhex(h)) for cd, h in c['exts']], be=c['be'], cls=c['cls'], single=c['single'], vox=c['vox'])
+    case = dict(exts=[(cd, bytes.fromhex(h)) for cd, h in c['exts']], be=c['be'], cls=c['cls'], single=c['single'], vox=c['vox'],
+                objs={int(k): v for k, v in (c.get('objs') or {}).items()})
     o = impl_run(case)
     print({k: (v.hex() if isinstance(v, bytes) else v) for k, v in o.items()})
     want = [(cd, b.rstrip(b'\0')) for cd, b in case['exts']]
